@@ -93,12 +93,21 @@ class StairsSlicer:
         left_bound = self._slices.index.left.min()
         right_bound = self._slices.index.right.max()
         stairs_na = self._stairs.isna().mask((left_bound, right_bound)).fillna(0)
-        return (
+        defined = new_values.notna().values
+        result = (
             self._stairs.mask((left_bound, right_bound))
             .fillna(0)
             .mask(stairs_na)
-            .layer(new_values.index.left, new_values.index.right, new_values.values)
+            .layer(
+                new_values.index.left[defined],
+                new_values.index.right[defined],
+                new_values.values[defined],
+            )
         )
+        # a slice without a defined statistic stays undefined
+        for interval in new_values.index[~defined]:
+            result = result.mask((interval.left, interval.right))
+        return result
 
 
 def make_slice_method(method_name: str) -> Callable:
